@@ -265,7 +265,10 @@ where
         &self,
         environment: &chalk_ir::Environment<I>,
     ) -> chalk_ir::ProgramClauses<I> {
-        self.ws.db().program_clauses_for_env(environment)
+        // Elaborate the environment through this wrapper rather than inside
+        // the wrapped database, so that the traits consulted for implied
+        // bounds are recorded like everything else the solver looks at.
+        crate::clauses::program_clauses_for_env(self, environment)
     }
 
     fn interner(&self) -> I {
